@@ -686,6 +686,20 @@ vbi_draw_vt_page_region(vbi_page *pg,
 			switch (size) {
 			case VBI_OVER_TOP:
 			case VBI_OVER_BOTTOM:
+				/* The right half of the double width character
+				   in the cell to the left, which has been drawn
+				   already. When there is none (first column of
+				   the region, or attributes from enhancement
+				   data which do not pair up) the cell would keep
+				   whatever the canvas contained. */
+				if (count == width
+				    || !(VBI_DOUBLE_WIDTH == ac[-1].size
+					 || VBI_DOUBLE_SIZE == ac[-1].size
+					 || VBI_DOUBLE_SIZE2 == ac[-1].size))
+					draw_blank (canvas_type, canvas, rowstride,
+						    ((canvas_type == 1) ?
+						     pen.pal8[0] : pen.rgba[0]),
+						    TCW, TCH);
 				break;
 
 			default:
